@@ -151,7 +151,10 @@ def main(argv):
                     print("  bucket:", b, "|", f["outcome"].get("msg"))
                     rc = 1
             if rc == 0 and not res["failures"]:
-                print(f"replay passed: {d['path']}")
+                if res.get("inconclusive"):
+                    print(f"replay inconclusive ({', '.join(res['inconclusive'])}): {d['path']}")
+                else:
+                    print(f"replay passed: {d['path']}")
             return rc
 
         tier = argv[2]
